@@ -120,7 +120,7 @@ def run(idx, rep, tier):
     # ---- Ritz pairs ascending and paired: the ORDER of the returned values (abstract interpretation over spectrum orders, helpers
     # followed: eigh yields ascending values, x[argsort(x)] ascending, x[argsort(abs(x))] magnitude order, ...), and wherever values
     # are re-ordered by an index that is not the identity the vector columns must be re-ordered by the same index
-    from props.C10 import ASC_ALG, Order, index_names, uses_of
+    from props.C10 import ASC_ALG, Order, index_names, perm_source_calls, uses_of
     od = Order(idx)
     rets = [r for r in df.returns(eigs.node) if isinstance(r.value, ast.Tuple) and len(r.value.elts) >= 2]
     if not rets:
@@ -142,7 +142,7 @@ def run(idx, rep, tier):
             if kind_ != "perm":
                 continue
             # the argsort of values that are already ascending is the identity: nothing to pair
-            src_calls = [v_ for v_, p_, st_ in df.assignments(f.node).get(name_, []) if isinstance(v_, ast.Call) and v_.args]
+            src_calls = perm_source_calls(f, name_)
             arg_orders = {a_[1] for c_ in src_calls for a_ in od.spec_alts(od.eval_in(f, c_.args[0]))}
             plain = all(df.is_xnp_call(c_) == "argsort" and not any(k_.arg == "descending" for k_ in c_.keywords) for c_ in src_calls)
             if src_calls and plain and arg_orders == {ASC_ALG}:
